@@ -3,7 +3,7 @@
 From ToughV Require Import Model.Base Model.Pct Model.Json Model.CJson Model.ClientRun Model.TName
      Model.Glob Model.Deleg Model.Keys Model.Editor.
 From ToughV Require Import Model.RootCmd.
-From ToughV Require Import Model.Http Model.Schema.
+From ToughV Require Import Model.Http Model.Schema Model.Sig Model.Client Model.EditorRT.
 
 Definition run_C16 (op : N) (a : list tree) : tree :=
   match op, a with
@@ -139,6 +139,42 @@ Definition run_C12 (op : N) (a : list tree) : tree :=
     | _ => T [L 999]
     end.
 
+(* C10, op 0: RepositoryEditor::sign + write for a repository without delegated roles.
+   [root, [entries [[raw name, len, digest]], tv, sv, tsv, texp, sexp, tsexp], keys,
+    [len targets, digest targets, len snapshot, digest snapshot, len timestamp, digest timestamp]]
+   -> [1, targets, snapshot, timestamp, [file names]] | [0] *)
+Definition tree_of_Z (z : Z) : tree := T [L (if (z <? 0)%Z then 1 else 0); L (Z.abs_N z)].
+Definition tree_of_sig (s : sig) : tree := T [L (s_claim s); L (s_by s); of_bool (s_ok s)].
+Definition tree_of_meta (m : meta) : tree := T [L (m_version m); of_opt L (m_length m); of_opt L (m_hash m)].
+Definition tree_of_metas (l : list (bytes * meta)) : tree :=
+  T (map (fun e => T [of_bytes (fst e); tree_of_meta (snd e)]) l).
+Definition run_C10 (op : N) (a : list tree) : tree :=
+  match a with
+  | [rt; ed; keys; tbl] =>
+      let r := root_of_tree rt in
+      let entries := map (fun e => ({| tn_raw := t_bytes (t_nth e 0); tn_resolved := t_bytes (t_nth e 0); tn_hexdigest := [] |},
+                                    {| ti_len := t_N (t_nth e 1); ti_digest := t_N (t_nth e 2); ti_hex := [] |}))
+                         (t_list (t_nth ed 0)) in
+      let e := {| e_entries := entries; e_tv := t_N (t_nth ed 1); e_sv := t_N (t_nth ed 2); e_tsv := t_N (t_nth ed 3);
+                  e_texp := Z_of_tree (t_nth ed 4); e_sexp := Z_of_tree (t_nth ed 5); e_tsexp := Z_of_tree (t_nth ed 6) |} in
+      let len_of := fun c => match c with CTargets _ => t_N (t_nth tbl 0) | CSnap _ => t_N (t_nth tbl 2)
+                                     | CTs _ => t_N (t_nth tbl 4) | _ => 0 end in
+      let dig_of := fun c => match c with CTargets _ => t_N (t_nth tbl 1) | CSnap _ => t_N (t_nth tbl 3)
+                                     | CTs _ => t_N (t_nth tbl 5) | _ => 0 end in
+      match ed_sign len_of dig_of r e (t_Ns keys) with
+      | None => T [L 0]
+      | Some (tg, sn, ts, srv) =>
+          T [L 1;
+             T [L (tg_version tg); tree_of_Z (tg_expires tg);
+                T (map (fun ni => T [of_bytes (tn_raw (fst ni)); L (ti_len (snd ni)); L (ti_digest (snd ni))]) (tg_entries tg));
+                T (map tree_of_sig (tg_sigs tg))];
+             T [L (sn_version sn); tree_of_Z (sn_expires sn); tree_of_metas (sn_meta sn); T (map tree_of_sig (sn_sigs sn))];
+             T [L (ts_version ts); tree_of_Z (ts_expires ts); tree_of_metas (ts_meta ts); T (map tree_of_sig (ts_sigs ts))];
+             T (map (fun x => of_bytes (fst x)) srv)]
+      end
+  | _ => T [L 999]
+  end.
+
 Definition run_case (t : tree) : tree :=
   match t with
   | T (L p :: L op :: args) =>
@@ -148,6 +184,7 @@ Definition run_case (t : tree) : tree :=
       else if p =? 7 then run_C07 op args
       else if p =? 13 then run_C13 op args
       else if p =? 12 then run_C12 op args
+      else if p =? 10 then run_C10 op args
       else if p =? 17 then run_C17 op args
       else if p =? 6 then run_client op args
       else if p =? 20 then run_C20 op args
